@@ -143,6 +143,78 @@ def o2_last_hop(ctx, role, lvl, lf, ld):
     ctx.reached()
 
 
+CHAIN = [0, 0o4, 0o24, 0o324, 0o1324, 0o5324, 0o124, 0o14, 0o1, 0o11]
+ROUTES = [(0o1324, 0o14), (0o14, 0o5324), (0o124, 0o11), (0o1, 0o1324), (0o324, 0o4), (0o24, 0o1324), (0o1324, 0)]
+
+
+def route_of(src, dst):
+    path, cur = [src], src
+    while cur != dst:
+        cur = NS.next_hop(cur, dst)
+        path.append(cur)
+    return path
+
+
+def o3_cosim_failing_hop(ctx, src, dst):
+    """whole-system run on a fixed tree of real nodes: ONE symbolic failure - a forward hop whose transmissions are all
+    lost, or a node whose NETWORK_ACK relay is lost, or none - for an ack-type message (symbolic type 65..127)"""
+    from circuitpython_nrf24l01.rf24_network import RF24Network
+    from circuitpython_nrf24l01.network.structs import RF24NetworkHeader
+    clock = fresh_env(ctx)
+    med = Medium()
+    nodes = {}
+    for a in CHAIN:
+        radio = med.add(SimRadio(clock, oct(a)))
+        node = RF24Network(FakeSpiDev(radio), 0, Pin(radio), a)
+        nodes[a] = (radio, node)
+        med.attach_node(radio, node.update)
+    path = route_of(src, dst)
+    hops = len(path) - 1
+    fail = ctx.choice("failing", 2 * hops)  # 0 none; 1..hops forward hop i; hops+1..2*hops-1 the ack transmission of a relay
+
+    def loss(s, d, pkt, attempt):
+        is_ack = pkt.data[6] == NETWORK_ACK
+        if 1 <= fail <= hops and not is_ack and s.name == oct(path[fail - 1]):
+            return "pkt"
+        if fail > hops and is_ack and s.name == oct(path[hops - 1 - (fail - hops - 1)]):
+            return "pkt"
+        return "ok"
+    med.loss = loss
+    mtype = ctx.int("type", 65, 127)
+    body = ctx.bytes("body", 3)
+    rs, ns = nodes[src]
+    med.running(rs, True)
+    ok = ns.send(RF24NetworkHeader(dst, mtype), body)
+    med.running(rs, False)
+    for _ in range(40):
+        if not any(st[2] for st in med.nodes.values()):
+            break
+        med.run_pending()
+    ctx.check(not med.errors, "no node raised: %r" % (med.errors[:1],))
+    q = queue_frames(nodes[dst][1])
+    acks_on_air = [e for e in med.air if e["data"][6] == NETWORK_ACK and e["attempt"] == 0]
+    if hops == 1:
+        ctx.check(ok == (fail == 0), "direct neighbours: True iff the hop was acknowledged")
+        ctx.check(len([e for e in med.air if e["data"][6] == NETWORK_ACK]) == 0, "no NETWORK_ACK between direct neighbours")
+    elif fail == 0:
+        ctx.check(ok == True, "True: the NETWORK_ACK came back")  # noqa: E712
+        ctx.check(len(q) == 1, "delivered once")
+        origins = {e["src"] for e in acks_on_air}
+        ctx.check(oct(path[-2]) in origins, "the node that delivered to the destination sent the NETWORK_ACK")
+    elif fail <= hops:
+        ctx.check(ok == False, "False: a hop never delivered the frame, so no NETWORK_ACK can arrive")  # noqa: E712
+        ctx.check(len(q) == 0, "not delivered")
+        ctx.check(len(acks_on_air) == 0, "no NETWORK_ACK without delivery")
+    else:
+        ctx.check(ok == False, "False: the NETWORK_ACK was lost on its way back (believed only if received)")  # noqa: E712
+        ctx.check(len(q) == 1, "delivered once nevertheless")
+    for a, (radio, node) in nodes.items():
+        if a != dst:
+            ctx.check(len(queue_frames(node)) == 0, "nobody else's queue")
+        listening_ok(ctx, radio, a, "node %s afterwards" % oct(a))
+    ctx.reached()
+
+
 def jobs(tier):
     out = []
     combos = [(a, b) for a in range(5) for b in range(5) if (a, b) != (0, 0)]
@@ -159,6 +231,8 @@ def jobs(tier):
     if tier == "thorough":
         for lx, ld in ((1, 2), (2, 0), (3, 3)):
             out.append(Job("O1-origin-mesh-node", o1_origin, dict(lx=lx, ld=ld, ack_to="self", tick_ms=3, role="mesh"), cost=50, shards=4))
+    for src, dst in ROUTES:
+        out.append(Job("O3-co-simulation-one-failing-hop", o3_cosim_failing_hop, dict(src=src, dst=dst), cost=60))
     roles = ("routing", "net", "mesh")
     if tier == "quick":
         rc = [(r, l, lf, ld) for r in roles for l in range(5) for lf in range(5) for ld in range(5)
@@ -177,12 +251,13 @@ META = {
                         "route_timeout 5..40 ms symbolic, clock tick 1 / 7 / 20 ms (constant within a run, enumerated); NETWORK_ACK injected at "
                         "a symbolic clock look 0..69 or never, addressed to the sender or to another node; O2: one twelfth of all (role, level, "
                         "origin level, destination level) combinations with symbolic addresses, type 0..255 except fragments, "
-                        "symbolic id/reserved/body/pipe, symbolic delivery outcome",
+                        "symbolic id/reserved/body/pipe, symbolic delivery outcome; O3: 7 routes (1..8 hops) over a fixed 10-node tree, symbolic type 65..127 and "
+                        "contents, every single failing forward hop / acknowledgement relay",
                "thorough": "all 24 level pairs with every tick in O1 (also from a mesh node), half of all role x level x level x level "
                            "combinations in O2"},
     "outside": ["fragmented messages (the statement is about single-frame messages)", "clock increments that vary within one run",
                 "the exact boundary: an acknowledgement arriving within two ticks of the deadline may go either way",
-                "multi-hop co-simulation with failing relays (the per-node steps compose along the C04 path)"],
+                "more than one failure per message in the co-simulation; trees other than the co-simulated one (the per-node steps cover all addresses)"],
     "assumptions": ["a frame can only be received while the radio listens (an injection at a look where it does not is lost)",
                     "one outcome per transmitted packet; virtual clock with a constant symbolic tick"],
 }
